@@ -309,6 +309,55 @@ pub fn gen(args: &Args) {
         }
         let _ = std::fs::remove_dir_all(&wd);
     }
+    // dedicated -p / -i round trips: coordinates with all their decimals, high elevations, long ranges
+    // (the default rounding shows a difference only on the rare minute boundary, so volume matters)
+    let n_long = args.num("long_roundtrips", 150);
+    for i in 0..n_long {
+        let wd = format!("{}/rt{}", dir, i);
+        let _ = std::fs::remove_dir_all(&wd);
+        std::fs::create_dir_all(&wd).unwrap();
+        let high = i % 6 == 0;
+        let frac = |r: &mut Rng| (r.next() >> 11) as f64 / (1u64 << 53) as f64;
+        let lat = if high { 50. + 12. * frac(&mut r) } else { -48. + 96. * frac(&mut r) };
+        let lon = -180. + 360. * frac(&mut r);
+        let gmt = (lon / 15.).round().clamp(-12., 12.);
+        let el = if high { 8848. } else { (8848. * frac(&mut r) * 1000.).round() / 1000. };
+        let start = date_of_dn(r.range(dn_of(ymd(1600, 1, 1)), dn_of(ymd(2397, 1, 1))));
+        let span = if high { 200 } else { 400 };
+        let (o1, o2, par) = (format!("{}/o1.json", wd), format!("{}/o2.json", wd), format!("{}/p.json", wd));
+        let a1 = vec![
+            format!("--latitude={}", lat), format!("--longitude={}", lon), format!("--gmt={}", gmt), format!("--elevation={}", el),
+            format!("--method={}", METHOD_NAMES[r.range(1, 8) as usize]),
+            format!("--start-date={}", start), format!("--end-date={}", start + chrono::Duration::days(span - 1)),
+            format!("--output-file-path={}", o1), format!("--params-file-path={}", par),
+        ];
+        let e1 = Command::new(&bin).args(&a1).current_dir(&wd).output().map(|o| o.status.code().unwrap_or(-9)).unwrap_or(-8);
+        let a2 = vec![format!("--input-file-path={}", par), format!("--output-file-path={}", o2)];
+        let e2 = Command::new(&bin).args(&a2).current_dir(&wd).output().map(|o| o.status.code().unwrap_or(-9)).unwrap_or(-8);
+        let same = match (std::fs::read(&o1), std::fs::read(&o2)) {
+            (Ok(x), Ok(y)) => x == y && !x.is_empty(),
+            _ => false,
+        };
+        n_rt += 1;
+        w.emit(json!({"ev": "rt", "exit1": e1, "exit2": e2, "same": same, "same_listing": true, "argv": a1, "long": true}));
+        let _ = std::fs::remove_dir_all(&wd);
+    }
+    // the default date is the machine's local date: run without dates in two far-apart zones
+    for (tz, off_h) in [("XXX-14", 14i64), ("XXX12", -12i64)] {
+        let wd = format!("{}/today{}", dir, off_h);
+        let _ = std::fs::remove_dir_all(&wd);
+        std::fs::create_dir_all(&wd).unwrap();
+        let out = format!("{}/o.json", wd);
+        let before = (chrono::Utc::now() + chrono::Duration::hours(off_h)).date_naive();
+        let res = Command::new(&bin).args(["--latitude=10", "--longitude=20", "--gmt=1", &format!("--output-file-path={}", out)])
+            .env("TZ", tz).current_dir(&wd).output();
+        let after = (chrono::Utc::now() + chrono::Duration::hours(off_h)).date_naive();
+        let exit = res.map(|o| o.status.code().unwrap_or(-9)).unwrap_or(-8);
+        let keys: Vec<i64> = std::fs::read_to_string(&out).ok().and_then(|t| serde_json::from_str::<Table>(&t).ok())
+            .map(|t| t.keys().map(|d| dn_of(*d)).collect()).unwrap_or_default();
+        w.emit(json!({"ev": "today", "tz": tz, "exit": exit, "keys": keys, "before": dn_of(before), "after": dn_of(after)}));
+        let _ = std::fs::remove_dir_all(&wd);
+    }
     let k = w.finish();
     println!("{}", json!({"events": k, "roundtrips": n_rt}));
 }
